@@ -172,6 +172,48 @@ def param_defaults(names: set[str]) -> list[tuple[str, str, str]]:
     return out
 
 
+# callees through which the library changes a geff target (or another output): every call of one of them, anywhere in the two
+# packages, is listed with its caller and with what it passes for `overwrite` / `mode` (C06: the entry-point table of Entry.v must
+# cover exactly this list)
+WRITE_CALLEES = {"write_arrays", "write_dicts", "from_ctc_to_geff", "from_trackmate_xml_to_geff", "geff_to_csv", "ctc_tiffs_to_zarr",
+                 "delete_geff", "check_for_geff", "_preliminary_checks", "write", "to_csv", "to_zarr", "open_array", "rmtree"}
+
+
+def write_calls() -> list[tuple[str, str, str]]:
+    """(file:function, callee as written, guard argument) for every call of a WRITE_CALLEES name in the two packages.
+    guard argument = the source text of the `overwrite=` keyword, else of the `mode=` keyword, else "**" when the call spreads a
+    dict, else "-"."""
+    out = []
+    for base in (SRC, SPEC):
+        for path in sorted(base.rglob("*.py")):
+            rel = str(path.relative_to(base.parent))
+            tree = ast.parse(path.read_text())
+
+            def visit(node, fn):
+                for child in ast.iter_child_nodes(node):
+                    name = fn
+                    if isinstance(child, (ast.FunctionDef, ast.AsyncFunctionDef, ast.ClassDef)):
+                        name = child.name if fn == "" else f"{fn}.{child.name}"
+                    if isinstance(child, ast.Call):
+                        f = child.func
+                        callee = f.id if isinstance(f, ast.Name) else (f.attr if isinstance(f, ast.Attribute) else None)
+                        if callee in WRITE_CALLEES:
+                            kws = {kw.arg: kw.value for kw in child.keywords}
+                            if "overwrite" in kws:
+                                arg = "overwrite=" + ast.unparse(kws["overwrite"])
+                            elif "mode" in kws:
+                                arg = "mode=" + ast.unparse(kws["mode"])
+                            elif None in kws:
+                                arg = "**"
+                            else:
+                                arg = "-"
+                            out.append((f"{rel}:{fn if fn else '<module>'}", ast.unparse(f), arg))
+                    visit(child, name)
+
+            visit(tree, "")
+    return out
+
+
 # functions on the read side (C18): every zarr open in them must be read-only
 READ_SIDE = {
     "core_io/_utils.py": ["open_storelike", "_detect_zarr_spec_version", "check_for_geff"],
@@ -248,6 +290,12 @@ def gen_consts() -> str:
             raise ValueError(f"{must} no longer has a `{prm}` parameter")
     lines.append("Definition param_defaults : list (string * string * string) := [" +
                  "; ".join(f"({cstr(f)}, {cstr(q)}, {cstr(v)})" for f, q, v in pd) + "].")
+    lines.append("")
+    wc = write_calls()
+    if not any(c == "write_arrays" for _, c, _ in wc):
+        raise ValueError("no call of write_arrays found in the packages")
+    lines.append("Definition write_calls : list (string * string * string) := [" +
+                 "; ".join(f"({cstr(f)}, {cstr(c)}, {cstr(a)})" for f, c, a in wc) + "].")
     lines.append("")
     lines.append("Definition write_arrays_calls : list string := [" + "; ".join(cstr(c) for c in wa) + "].")
     lines.append("Definition delete_geff_calls : list string := [" + "; ".join(cstr(c) for c in dg) + "].")
